@@ -82,7 +82,7 @@ From SV.Json Require Grammar Fsm Wrappers.
 From Coq Require Import Lia.
 
 Theorem C04_wellformed_partial_jit : forall e co flg t v prog,
-  (0 < MaxInlineDepth co)%nat -> has_opts flg BitNoNullSliceOrMap = false ->
+  (0 < MaxInlineDepth co)%nat -> EncOnlyOmitNull co = false -> has_opts flg BitNoNullSliceOrMap = false ->
   frag e t -> compilable e co t -> has_type (fok_wf prims_jit) t v ->
   compile e co t (has_opts flg BitPointerValue) = COk prog -> (need v <= 4096)%nat ->
   wf_outcome (encode prims_jit e co flg (Some (t, v))) v.
@@ -90,7 +90,7 @@ Proof. exact marshal_wellformed_jit. Qed.
 Print Assumptions C04_wellformed_partial_jit.
 
 Theorem C04_wellformed_partial_vm : forall e co flg t v prog,
-  (0 < MaxInlineDepth co)%nat -> has_opts flg BitNoNullSliceOrMap = false ->
+  (0 < MaxInlineDepth co)%nat -> EncOnlyOmitNull co = false -> has_opts flg BitNoNullSliceOrMap = false ->
   frag e t -> compilable e co t -> has_type (fok_wf prims_vm) t v ->
   compile e co t (has_opts flg BitPointerValue) = COk prog -> (need v <= 4096)%nat ->
   wf_outcome (encode prims_vm e co flg (Some (t, v))) v.
@@ -115,7 +115,7 @@ Print Assumptions C04_finish_preserves.
 (* non-vacuity: a struct with a float and a slice of strings holding '<' and U+2028, under ConfigStd's option word *)
 Definition c04_ex_ty : ty :=
   TStruct 32 [(0%N, TPrim KFloat64); (8%N, TSlice (TPrim KString))]
-    [Field [102%N] 0 (TPrim KFloat64) [(0%N, false)]; Field [115%N] 0 (TSlice (TPrim KString)) [(8%N, false)]].
+    [Field [102%N] 0 (TPrim KFloat64) [(0%N, false)]; Field [115%N] 1 (TSlice (TPrim KString)) [(8%N, false)]].     (* s: omitempty *)
 Definition c04_ex_val : val :=
   VStruct [VFloat 4609434218613702656 (Some [49; 46; 53]%N); VSlice (Some [VStr [60; 226; 128; 168]%N])].
 Definition c04_ex_out : bytes :=
@@ -126,7 +126,10 @@ Example C04_wellformed_nonvacuous :
   encode prims_jit [] default_copts std_flags (Some (c04_ex_ty, c04_ex_val)) = Done c04_ex_out /\
   Fsm.Valid c04_ex_out = Fsm.Ok true.
 Proof.
-  assert (Hf : frag [] c04_ex_ty) by (cbn; repeat split; try lia; repeat constructor; eexists; repeat split; cbn; auto).
+  assert (Hf : frag [] c04_ex_ty).
+  { cbn. repeat split; try lia. repeat constructor.
+    - exists 0%N. repeat split; [left; reflexivity|cbn; auto].
+    - exists 8%N. repeat split; [right; left; split; reflexivity|cbn; auto]. }
   assert (Hc : compilable [] default_copts c04_ex_ty).
   { cbn. split; [|repeat split]. intro pv. destruct pv; eexists; vm_compute; reflexivity. }
   assert (Hv : has_type (fok_wf prims_jit) c04_ex_ty c04_ex_val).
